@@ -69,6 +69,13 @@ def cases(draw, tier):
         rows.append({"basis": b, "u": draw(U01)})
         if draw(st.integers(0, 9)) == 0 or (polarised and draw(st.booleans())):
             rows[-1]["rare"] = True
+    if t != "positive" and not sc.get("large") and n >= 2 and len(allb) >= 16 and draw(st.integers(0, 2)) == 0:
+        # feature interaction: user letters + many different bases in ONE batch (10-16 distinct basis strings drawn from the whole alphabet, so
+        # that every letter - also the user's - occurs, in every position) + the reference basis
+        pick = draw(st.permutations(allb))[: draw(st.integers(10, 16))]
+        rows = [{"basis": "Z" * n, "u": draw(U01)}] + [{"basis": b_, "u": draw(U01)} for b_ in pick]
+        N = len(rows)
+        sc["many_bases"] = True
     big = draw(st.integers(0, 19)) == 0
     if big:
         # a large batch concentrated in few bases (size-dependent code paths such as chunked evaluation of a basis group)
